@@ -610,48 +610,66 @@ func c13History(o *Out, r *rand.Rand) {
 			return
 		}
 	}
-	// add-only updates
+	// a history of updates of every kind, in random order: no-op re-announcements and pure
+	// additions are judged against the mapping just before them – also after earlier removals
+	// (which leave holes in the ring) – removals and mixed updates for membership only.
 	prev := m2
-	for step := 0; step < 1+r.Intn(3); step++ {
+	steps := 2 + r.Intn(5)
+	for step := 0; step < steps; step++ {
+		kind := []string{"noop", "add", "add", "remove-many", "mixed"}[r.Intn(5)]
 		added := map[string]bool{}
-		for i := 0; i < 1+r.Intn(3); i++ {
-			k := fmt.Sprintf("tcp@10.1.%d.%d:8972", r.Intn(4), r.Intn(40))
-			if _, ok := cur[k]; !ok {
-				cur[k] = ""
-				added[k] = true
+		switch kind {
+		case "add":
+			for i := 0; i < 1+r.Intn(3); i++ {
+				k := fmt.Sprintf("tcp@10.1.%d.%d:8972", r.Intn(4), r.Intn(40))
+				if _, ok := cur[k]; !ok {
+					cur[k] = ""
+					added[k] = true
+				}
 			}
+		case "remove-many": // more than half of the servers go away
+			target := len(cur) / 3
+			if target < 1 {
+				target = 1
+			}
+			for k := range cur {
+				if len(cur) > target {
+					delete(cur, k)
+				}
+			}
+		case "mixed":
+			for k := range cur {
+				if r.Intn(3) == 0 && len(cur) > 1 {
+					delete(cur, k)
+				}
+			}
+			cur[fmt.Sprintf("tcp@10.2.0.%d:8972", r.Intn(40))] = ""
 		}
 		selA.UpdateServer(copyMap(cur))
 		ops = append(ops, updateOp(selA, cur, false))
 		m3 := mapping(selA, true)
+		o.Count("c13.update." + kind)
 		for i := range m3 {
-			if m3[i] != prev[i] && !added[m3[i]] {
-				o.Violate("c13.not-monotone", fmt.Sprintf("after adding servers only, key %d moved from %s to the old server %s", keys[i], prev[i], m3[i]), rp("add-only"))
+			if _, ok := cur[m3[i]]; !ok {
+				o.Violate("c13.removed-server-selected", fmt.Sprintf("key mapped to %q which is not in the current set", m3[i]), rp(kind))
 				return
 			}
-		}
-		// a second client that sees the same history agrees
-		prev = m3
-	}
-	// mixed history (remove some, add some) – model diff only, plus membership
-	if r.Intn(2) == 0 {
-		for k := range cur {
-			if r.Intn(3) == 0 && len(cur) > 1 {
-				delete(cur, k)
-			}
-		}
-		cur[fmt.Sprintf("tcp@10.2.0.%d:8972", r.Intn(40))] = ""
-		selA.UpdateServer(copyMap(cur))
-		ops = append(ops, updateOp(selA, cur, false))
-		m4 := mapping(selA, true)
-		for i := range m4 {
-			if _, ok := cur[m4[i]]; !ok {
-				o.Violate("c13.removed-server-selected", fmt.Sprintf("key mapped to %q which a later update removed", m4[i]), rp("mixed"))
-				return
+			switch kind {
+			case "noop":
+				if m3[i] != prev[i] {
+					o.Violate("c13.unstable.reannounce", fmt.Sprintf("re-announcing the identical set (update %d of the history) moved key %d from %s to %s", step+2, keys[i], prev[i], m3[i]), rp("re-announce after history"))
+					return
+				}
+			case "add":
+				if m3[i] != prev[i] && !added[m3[i]] {
+					o.Violate("c13.not-monotone", fmt.Sprintf("after adding servers only (update %d of the history), key %d moved from %s to the old server %s", step+2, keys[i], prev[i], m3[i]), rp("add-only"))
+					return
+				}
 			}
 		}
 		// a selector built fresh from the final set need not agree with one that lived through
 		// removals (doublejump keeps holes); the property does not ask for that.
+		prev = m3
 	}
 	o.Case("sel hash "+strings.Join(ops, " "), strings.Join(outs, ","), len(cur) >= 2)
 	o.Count(fmt.Sprintf("c13.n=%d", len(cur)))
